@@ -65,7 +65,7 @@ pub fn rebuild(j: &J) -> Term {
     }
 }
 
-pub const ROUTES: [&str; 8] = ["constructor", "clone", "clone_of_clone", "parse_ascii", "parse_han", "lexical_fold", "first_then_push_rest", "half_then_push_half"];
+pub const ROUTES: [&str; 9] = ["constructor", "clone", "clone_of_clone", "parse_ascii", "parse_han", "lexical_fold", "first_then_push_rest", "half_then_push_half", "enum_variants_written_directly"];
 
 /// The value of `r` reached through a construction route other than the plain constructor: a
 /// clone (which reallocates its containers at exactly their length), the enum parser and the
@@ -78,6 +78,8 @@ pub fn route_build(route: &str, r: &R) -> Option<Term> {
         "constructor" => Some(base),
         "clone" => Some(base.clone()),
         "clone_of_clone" => Some(base.clone().clone()),
+        // `Term`'s variants are public: the value written as nested variants, no constructor involved
+        "enum_variants_written_directly" => Some(r.build_raw()),
         "parse_ascii" | "parse_han" => {
             let f = if route == "parse_ascii" { fmts::ascii() } else { fmts::han() };
             let s = f.e.format_term(&base);
@@ -123,6 +125,27 @@ pub fn route_recipes() -> Vec<R> {
                 _ => {}
             }
         }
+    }
+    // statements: every copula over a few operand pairs, BOTH operand orders (a constructor that normalises
+    // the operand order of symmetric statements is bypassed by the variant written directly)
+    {
+        let (a, b) = (R::word("a"), R::word("b"));
+        let items = [a.clone(), b.clone(), R::atom(Tag::IVar, "a"), R::interval(5), R::word("5"), R::node(Tag::SetExt, vec![a.clone(), b.clone()]), R::pair(Tag::Sim, b.clone(), a.clone())];
+        for &t in STATEMENT_TAGS.iter() {
+            for x in &items {
+                for y in &items {
+                    if x != y {
+                        out.push(R::pair(t, x.clone(), y.clone()));
+                    }
+                }
+            }
+            out.push(R::node(Tag::SetExt, vec![R::pair(t, a.clone(), b.clone()), R::pair(t, b.clone(), a.clone())]));
+        }
+        for t in [Tag::DiffExt, Tag::DiffInt] {
+            out.push(R::pair(t, a.clone(), b.clone()));
+            out.push(R::pair(t, b.clone(), a.clone()));
+        }
+        out.push(R::node(Tag::Neg, vec![a.clone()]));
     }
     // nested: an ordered compound of 5 / 9 components as an element of a set and as an operand
     for n in [5usize, 9] {
